@@ -154,6 +154,80 @@ def derived_eq(cond):
     return []
 
 
+_PRED = {}
+_PRED_BUSY = set()
+
+
+def pred_summary(callee):
+    """For a small crate-local `fn(..) -> bool` without loops whose every path returns a constant: [(conditions, result)], the
+    conditions being over its parameters only; None when the function is not of that form.  Lets a rule read `is_object_header(h)`
+    as the test on `h` it stands for."""
+    if callee in _PRED:
+        return _PRED[callee]
+    _PRED[callee] = None
+    f = FACTS
+    if f is None or callee in _PRED_BUSY:
+        return None
+    b = f.bodies.get(callee) if hasattr(f, 'bodies') else None
+    if b is None or b.kind == 'Promoted' or '::{closure' in callee or str(b.local_ty(0).get('s')) != 'bool' or len(b.blocks) > 40 or natural_loops(b):
+        return None
+    _PRED_BUSY.add(callee)
+    try:
+        ps = Explorer(b, max_paths=40).explore()
+    except Exception:
+        ps = None
+    finally:
+        _PRED_BUSY.discard(callee)
+    if not ps or len(ps) > 12:
+        return None
+    out = []
+    for q in ps:
+        if q.end[0] == 'unreachable':
+            continue
+        if q.end[0] != 'return' or q.ret is None or q.ret[0] != 'const' or not isinstance(q.ret[1], bool):
+            return None
+        cs = []
+        for c in q.conds:
+            if any(s_[0] in ('call', 'hav', 'post') for s_ in subterms(c[0])):
+                return None
+            cs.append(c)
+        out.append((cs, q.ret[1]))
+    _PRED[callee] = out or None
+    return _PRED[callee]
+
+
+def _subst_params(t, args):
+    if not isinstance(t, tuple) or not t:
+        return t
+    if t[0] == 'init' and isinstance(t[1], int) and 1 <= t[1] <= len(args):
+        return args[t[1] - 1]
+    return tuple(_subst_params(x, args) if isinstance(x, tuple) and x and isinstance(x[0], str) else x for x in t)
+
+
+def derived_pred(cond):
+    """`helper(args) == true/false` for a crate-local predicate with a summary: the conditions on `args` that every path of the helper
+    with that answer establishes (all of them when there is exactly one such path)."""
+    t, op, val = cond[0], cond[1], cond[2]
+    if op != 'eq' or not isinstance(val, bool) or t[0] != 'call' or not isinstance(t[1], str) or FACTS is None:
+        return []
+    try:
+        summ = pred_summary(t[1]) if t[1] in getattr(FACTS, 'bodies', {}) else None
+    except Exception:
+        summ = None
+    if not summ:
+        return []
+    mine = [cs for cs, r in summ if r == val]
+    if not mine:
+        return []
+    keep = [c for c in mine[0] if all(any(c[:3] == d[:3] for d in other) for other in mine[1:])]
+    out = []
+    for c in keep:
+        nc = (_subst_params(c[0], t[2]), c[1], c[2], cond[3] if len(cond) > 3 else None)
+        out.append(nc)
+        out.extend(derived_eq(nc))
+    return out
+
+
 class Explorer:
     def __init__(self, body, max_paths=6000, max_blocks=400):
         self.body = body
@@ -552,7 +626,7 @@ class Explorer:
                         break
                     for tb, cond in branches[1:]:
                         np = Path()
-                        np.conds = path.conds + [cond] + derived_eq(cond)
+                        np.conds = path.conds + [cond] + derived_eq(cond) + derived_pred(cond)
                         np.events = list(path.events)
                         np.store = dict(path.store)
                         np.blocks = list(path.blocks)
@@ -560,6 +634,7 @@ class Explorer:
                     tb, cond = branches[0]
                     path.conds.append(cond)
                     path.conds.extend(derived_eq(cond))
+                    path.conds.extend(derived_pred(cond))
                     bb = tb
                     continue
                 path.end = ('unreachable', bb)
